@@ -3,11 +3,12 @@
 (*   Mode "all16"  : BPW = 2, every 16-bit value (also the compiler's whole   *)
 (*                   immediate range and every length boundary up to 16^3);   *)
 (*   Mode "grid32" : BPW = 4, every 32-bit value whose 8 nibbles are drawn    *)
-(*                   from NibSet, with the top nibble fixed to Top (one JVM   *)
-(*                   per Top): every length boundary, every sign/length       *)
+(*                   from NibSet, with the two top nibbles drawn from Tops    *)
+(*                   and Seconds (one JVM per slice): every length boundary,  *)
+(*                   every sign/length                                        *)
 (*                   combination, 0, -1, +-16^k, +-16^k +- 1, INT_MAX, INT_MIN*)
 EXTENDS AsmEncode, TLC, IOUtils, Json
-CONSTANTS NibSet, Tops
+CONSTANTS NibSet, Tops, Seconds
 VARIABLE done
 
 Val32(t, ns) ==   \* value with top nibble t and lower nibbles ns[1..7] (ns[7] least significant)
@@ -15,7 +16,7 @@ Val32(t, ns) ==   \* value with top nibble t and lower nibbles ns[1..7] (ns[7] l
       lo == ns[4] * 4096 + ns[5] * 256 + ns[6] * 16 + ns[7]
   IN Wrap16(hi) * 65536 + lo
 Values == IF BPW = 2 THEN MINW..MAXW
-          ELSE {Val32(t, ns) : t \in Tops, ns \in [1..7 -> NibSet]}
+          ELSE {Val32(t, <<sn>> \o ns) : t \in Tops, sn \in Seconds, ns \in [1..6 -> NibSet]}      \* TLC sets hold at most 10^6 elements
 Bad == {v \in Values : ~ChainOK(EncodeAsImplemented(3, v), 3, v) \/ Len(EncodeAsImplemented(3, v)) > 2 * BPW}
 Init == done = FALSE
 Next == ~done /\ done' = TRUE
